@@ -613,7 +613,22 @@ class StyleElement(TTMLElement):
       # nested style elements are merged in document order: a later one overrides an earlier one (inline and
       # referential styling are applied after all children have been processed)
 
-      for style_prop, value in style_ctx.styles.items():
+      nested_styles = {}
+
+      # the styles that the nested style element references, in order, below its own attributes
+
+      for style_ref in imsc_attr.StyleAttribute.extract(xml_elem):
+        style_element = style_ctx.style_elements.get(style_ref)
+
+        if style_element is None:
+          LOGGER.error("non existant style id")
+          continue
+
+        nested_styles.update(style_element.styles)
+
+      nested_styles.update(style_ctx.styles)
+
+      for style_prop, value in nested_styles.items():
         parent_ctx.model_element.set_style(style_prop, value)
 
       return None
